@@ -171,9 +171,24 @@ def c10_transparent(out):
         if r.kind != "return":
             continue
         obl.check_unsat(ex, "debug-transparent-rejection", list(r.pc) + [two if not is_err(r) else z3.Not(two)], info="transparent")
+    from . import replay_e3
+    seen = set()
     for label, m, info in obl.failed:
-        out.violation("transparent-rejection", "-", "build_debug_expr accepts two transparent fields or rejects a single one (model: %s)" % (
-            [str(m.eval(t, model_completion=True)) for t in ts],))
+        nn = m.eval(n, model_completion=True).as_long()
+        tv = [z3.is_true(m.eval(t, model_completion=True)) for t in ts][:nn]
+        if tuple(tv) in seen:
+            continue
+        seen.add(tuple(tv))
+        item = "struct X { %s }" % ", ".join("%sf%d: u8" % ("#[debug(transparent)] " if t else "", i) for i, t in enumerate(tv))
+        case = {"property": "C10", "kind": "reject", "mode": "attr", "attr": "Debug", "item": item, "expected_reject": sum(tv) >= 2,
+                "explain": "two or more #[debug(transparent)] fields must be refused; one or none must be accepted"}
+        obs = replay_e3.observe(case)
+        if replay_e3.disagrees(case, obs):
+            path = e3.write_replay("C10", "transparent%d" % len(seen), case)
+            out.violation("transparent-rejection|%s" % "".join("t" if t else "-" for t in tv), path,
+                          "#[derive_ex(Debug)] %s is %s" % (item, "accepted" if case["expected_reject"] else "refused"))
+        else:
+            out.broken.append("UNCONFIRMED counterexample for build_debug_expr: %s" % item)
     return obl
 
 
